@@ -304,9 +304,17 @@ def canonical(cfg, pop, snaps, elite, new) -> str:
         if not (isinstance(t, int) and 0 <= t < len(snaps)):
             return "?"
         return show_key(key_of(snaps[t]["fitness"], w))
-    parts = [f"E {pkey(elite)} {elite.index}"]
+    def pidx(obj, elite_slot):
+        # which of several tied agents becomes the elite is open, hence so is the index it keeps:
+        # in the elite slots compare "keeps the parent's index", elsewhere the number itself
+        t = getattr(obj, TAG, None)
+        if elite_slot and isinstance(t, int) and 0 <= t < len(snaps) and obj.index == snaps[t]["index"]:
+            return "keep"
+        return str(obj.index)
+    parts = [f"E {pkey(elite)} {pidx(elite, True)}"]
     for j, ch in enumerate(new):
-        parts.append(f"{pkey(ch)} {ch.index} {1 if (e and j == 0) else 0}")
+        slot = bool(e and j == 0)
+        parts.append(f"{pkey(ch)} {pidx(ch, slot)} {1 if slot else 0}")
     return " ; ".join(parts)
 
 
@@ -332,7 +340,7 @@ VALUE_POOLS = {
 
 def gen_case(rng: random.Random, kind: str, tier: str, chain: bool = False) -> dict:
     if kind == "real":
-        npop = rng.choice([1, 2, 2, 3, 3, 4, 4, 5, 6]) if not chain else rng.choice([2, 3])
+        npop = rng.choice([1, 2, 2, 3, 3, 4, 4, 5, 6]) if not chain else 2
     else:
         npop = rng.choice([1, 2, 3, 4, 5, 6, 8, 10, 12]) if rng.random() < 0.85 else rng.choice([17, 24, 40])
         if chain:
@@ -363,7 +371,7 @@ def gen_case(rng: random.Random, kind: str, tier: str, chain: bool = False) -> d
         agents.append({"index": indices[j], "fitness": fit})
     if with_empty:
         agents[rng.randrange(npop)]["fitness"] = []
-    gens = 1 if not chain else (rng.randint(20, 30) if tier == "quick" else rng.randint(30, 50))
+    gens = 1 if not chain else (rng.randint(20, 24) if tier == "quick" else rng.randint(30, 50))
     return {"kind": kind, "cfg": [k, e, n, w], "agents": agents, "seed": rng.randrange(1 << 30),
             "gens": gens, "pool": [str(v) for v in pool]}
 
@@ -564,7 +572,7 @@ def run(chk: Check) -> None:
     ]
     pool = Pool()
     cases = load_corpus()
-    n_real, n_stub = (70, 1200) if quick else (500, 12000)
+    n_real, n_stub = (45, 1200) if quick else (450, 12000)
     n_chain_real, n_chain_stub = (1, 6) if quick else (4, 40)
     for _ in range(n_real):
         cases.append(gen_case(rng, "real", chk.tier))
